@@ -646,8 +646,28 @@ func classify(err error) clsRec {
 
 // ------------------------------------------------------------------------------------ one case
 
-var malformedProto = []byte{0x08, 0x01}               // field 1 with wire type varint: field 1 is a repeated message
-var malformedJSON = []byte(`{"resourceSpans": [{"x"`) // truncated JSON
+// Malformed bodies (syntactically broken in every variant, so that "malformed" is not a matter of opinion):
+// proto: field 1 with wire type varint (field 1 is a repeated message) | a length prefix that exceeds the
+// body | the well-formed request minus its last byte (cuts the last top-level field short);
+// json: a fixed truncated object | the well-formed request cut in the middle | minus its closing brace.
+func malformedBody(media string, valid []byte, variant int) []byte {
+	if media == "json" {
+		switch variant % 3 {
+		case 0:
+			return []byte(`{"resourceSpans": [{"x"`)
+		case 1:
+			return valid[:len(valid)/2]
+		}
+		return valid[:len(valid)-1]
+	}
+	switch variant % 3 {
+	case 0:
+		return []byte{0x08, 0x01}
+	case 1:
+		return []byte{0x0a, 0xff, 0x01, 0x00}
+	}
+	return valid[:len(valid)-1]
+}
 
 // runOne runs a case; a case whose request did not get an answer from the peer at all (connection trouble,
 // not a status produced by the code under test) is tried again, and given up as "could not be run" after
@@ -743,15 +763,14 @@ func (e *env) attempt(p planLine, seed int64) (outLine, string, error) {
 			return outLine{}, "", err
 		}
 		var body []byte
-		switch {
-		case !p.Wellformed && p.Media == "json":
-			body = malformedJSON
-		case !p.Wellformed:
-			body = malformedProto
-		case p.Media == "json":
+		if p.Media == "json" {
 			body = ops.reqJSON(payload)
-		default:
+		} else {
 			body = ops.reqProto(payload)
+		}
+		if !p.Wellformed {
+			body = malformedBody(p.Media, body, p.ID+int(seed))
+			extra["malformed_variant"] = (p.ID + int(seed)) % 3
 		}
 		method := http.MethodPost
 		if p.Method != "POST" {
@@ -796,7 +815,8 @@ func (e *env) attempt(p planLine, seed int64) (outLine, string, error) {
 			err = ops.grpcExport(ctx, cc, payload)
 		} else {
 			var out []byte
-			err = cc.Invoke(ctx, ops.grpcMethod, malformedProto, &out, grpc.ForceCodec(rawCodec{}))
+			extra["malformed_variant"] = (p.ID + int(seed)) % 3
+			err = cc.Invoke(ctx, ops.grpcMethod, malformedBody("proto", ops.reqProto(payload), p.ID+int(seed)), &out, grpc.ForceCodec(rawCodec{}))
 		}
 		o.Resp = *grpcResp(err)
 		if err != nil {
